@@ -4,7 +4,7 @@ The ResolvedPos accessors are *trusted* here (their arithmetic against the flat 
 checked by the bounded C09 driver); what is proved are the functions that use them."""
 import os
 
-from pyvc.api import abstract, axiom, cls, contract, lemma, spec_file
+from pyvc.api import abstract, axiom, cls, contract, invariant, lemma, spec_file
 
 from . import classes  # noqa: F401
 from . import model_content  # noqa: F401
@@ -16,37 +16,99 @@ FTRR = "prosemirror/transform/replace.py"
 FSTR = "prosemirror/transform/structure.py"
 spec_file(os.path.join(os.path.dirname(os.path.dirname(os.path.abspath(__file__))), "spec", "posspec.py"))
 
-cls("ResolvedPos", FP, {"pos": "int", "depth": "int", "parent_offset": "int"})
+cls("ResolvedPos", FP, {"pos": "int", "path": "list3[Node,int,int]", "depth": "int", "parent_offset": "int"})
 cls("NodeRange", FP, {"from_": "ResolvedPos", "to": "ResolvedPos", "depth": "int"})
-abstract("rp_node", ["ResolvedPos", "int"], "Node")
-abstract("rp_index", ["ResolvedPos", "int"], "int")
-abstract("rp_start", ["ResolvedPos", "int"], "int")
-abstract("rp_end", ["ResolvedPos", "int"], "int")
-abstract("rp_index_after", ["ResolvedPos", "int"], "int")
 
-T = "C09 (bounded): accessor arithmetic against the flat token picture; trusted here"
+P9 = ["C09", "C18", "C12"]
+PATH = "self.path"
+K = lambda d: f"p3a({PATH}, {d}).content.content"  # noqa: E731  children of the ancestor at depth d
+
+# representation invariant of a resolved position (RP): proved where ResolvedPos.resolve constructs the
+# object, assumed for every ResolvedPos that is read, and evaluated natively at every construction
+invariant("ResolvedPos",
+          "self.depth >= 0", f"len3({PATH}) == self.depth + 1",
+          f"all_(0, self.depth + 1, lambda d: 0 <= p3b({PATH}, d) and p3b({PATH}, d) <= len({K('d')}))",
+          # every level but the last points at an existing child, and that child is the next level's node
+          f"all_(0, self.depth, lambda d: p3b({PATH}, d) < len({K('d')}) and p3a({PATH}, d + 1) == {K('d')}[p3b({PATH}, d)])",
+          # the recorded offsets are prefix sums of child sizes: the flat token position of the child boundary
+          f"p3c({PATH}, 0) == pre({K(0)}, p3b({PATH}, 0))",
+          f"all_(1, self.depth + 1, lambda d: p3c({PATH}, d) == p3c({PATH}, d - 1) + 1 + pre({K('d')}, p3b({PATH}, d)))",
+          # the position is at that boundary, or strictly inside the text child that starts there
+          f"self.pos >= p3c({PATH}, self.depth)",
+          f"self.pos == p3c({PATH}, self.depth) or (p3b({PATH}, self.depth) < len({K('self.depth')}) and {K('self.depth')}[p3b({PATH}, self.depth)].type.is_text"
+          f" and self.pos - p3c({PATH}, self.depth) < nsize({K('self.depth')}[p3b({PATH}, self.depth)]))",
+          f"self.parent_offset == self.pos - (0 if self.depth == 0 else p3c({PATH}, self.depth - 1) + 1)")
+
 DEPTH_OK = ["0 <= depth", "depth <= self.depth"]
-contract(FP, "ResolvedPos.node", {"self": "ResolvedPos", "depth": "int"}, returns="Node", requires=DEPTH_OK, ensures=["result == rp_node(self, depth)"], trusted=T, props=["C18"])
-contract(FP, "ResolvedPos.index", {"self": "ResolvedPos", "depth": "opt[int]"}, returns="int",
-         requires=["depth is None or (0 <= depth and depth <= self.depth)"],
-         ensures=["result == rp_index(self, self.depth if depth is None else depth)", "0 <= result",
-                  "result <= len(rp_node(self, self.depth if depth is None else depth).content.content)"], trusted=T, props=["C18"])
+ODEPTH_OK = ["depth is None or (0 <= depth and depth <= self.depth)"]
+DD = "(self.depth if depth is None else depth)"
+contract(FP, "ResolvedPos.resolve_depth", {"self": "ResolvedPos", "val": "opt[int]"}, returns="int",
+         ensures=["result == (self.depth if val is None else (self.depth + val if val < 0 else val))"], props=P9)
+contract(FP, "ResolvedPos.node", {"self": "ResolvedPos", "depth": "int"}, returns="Node", requires=DEPTH_OK, ensures=["result == rp_node(self, depth)"], props=P9)
+contract(FP, "ResolvedPos.index", {"self": "ResolvedPos", "depth": "opt[int]"}, returns="int", requires=ODEPTH_OK,
+         ensures=[f"result == rp_index(self, {DD})", "0 <= result", f"result <= len(rp_node(self, {DD}).content.content)"], props=P9)
+contract(FP, "ResolvedPos.text_offset", {"self": "ResolvedPos"}, returns="int", is_property=True,
+         ensures=["result == rp_toff(self)", "result >= 0"], props=P9)
 contract(FP, "ResolvedPos.index_after", {"self": "ResolvedPos", "depth": "int"}, returns="int", requires=DEPTH_OK,
-         ensures=["result == rp_index_after(self, depth)", "rp_index(self, depth) <= result", "result <= len(rp_node(self, depth).content.content)"], trusted=T, props=["C18"])
-contract(FP, "ResolvedPos.start", {"self": "ResolvedPos", "depth": "opt[int]"}, returns="int",
-         requires=["depth is None or (0 <= depth and depth <= self.depth)"],
-         ensures=["result == rp_start(self, self.depth if depth is None else depth)"], trusted=T, props=["C18"])
-contract(FP, "ResolvedPos.end", {"self": "ResolvedPos", "depth": "opt[int]"}, returns="int",
-         requires=["depth is None or (0 <= depth and depth <= self.depth)"],
-         ensures=["result == rp_end(self, self.depth if depth is None else depth)"], trusted=T, props=["C18"])
-contract(FP, "ResolvedPos.parent", {"self": "ResolvedPos"}, returns="Node", is_property=True, ensures=["result == rp_node(self, self.depth)"], trusted=T, props=["C18"])
-contract(FP, "NodeRange.parent", {"self": "NodeRange"}, returns="Node", is_property=True, ensures=["result == rp_node(self.from_, self.depth)"], trusted=T, props=["C18"])
-contract(FP, "NodeRange.start_index", {"self": "NodeRange"}, returns="int", is_property=True,
-         ensures=["result == rp_index(self.from_, self.depth)", "0 <= result"], trusted=T, props=["C18"])
-contract(FP, "NodeRange.end_index", {"self": "NodeRange"}, returns="int", is_property=True,
-         ensures=["result == rp_index_after(self.to, self.depth)", "rp_index(self.from_, self.depth) <= result",
-                  "result <= len(rp_node(self.from_, self.depth).content.content)"], trusted=T, props=["C18"])
-axiom("resolved-depth-nonneg", {"rp": "ResolvedPos"}, "rp.depth >= 0", "type invariant of ResolvedPos (depth = len(path)/3 - 1 with a non-empty path)", triggers=["rp.depth"])
+         ensures=["result == rp_index_after(self, depth)", "rp_index(self, depth) <= result", "result <= len(rp_node(self, depth).content.content)"], props=P9)
+contract(FP, "ResolvedPos.start", {"self": "ResolvedPos", "depth": "opt[int]"}, returns="int", requires=ODEPTH_OK,
+         ensures=[f"result == rp_start(self, {DD})"], props=P9)
+contract(FP, "ResolvedPos.end", {"self": "ResolvedPos", "depth": "opt[int]"}, returns="int", requires=ODEPTH_OK,
+         ensures=[f"result == rp_end(self, {DD})"], props=P9)
+contract(FP, "ResolvedPos.before", {"self": "ResolvedPos", "depth": "opt[int]"}, returns="int",
+         requires=["depth is None or (0 <= depth and depth <= self.depth + 1)"],
+         raises={"ValueError": f"{DD} == 0"},
+         # position right before the ancestor at that depth (for depth+1: the position itself)
+         ensures=[f"result == (self.pos if {DD} == self.depth + 1 else p3c(self.path, {DD} - 1))"], props=P9)
+contract(FP, "ResolvedPos.after", {"self": "ResolvedPos", "depth": "opt[int]"}, returns="int",
+         requires=["depth is None or (0 <= depth and depth <= self.depth + 1)"],
+         raises={"ValueError": f"{DD} == 0"},
+         ensures=[f"result == (self.pos if {DD} == self.depth + 1 else p3c(self.path, {DD} - 1) + nsize(p3a(self.path, {DD})))"], props=P9)
+contract(FP, "ResolvedPos.parent", {"self": "ResolvedPos"}, returns="Node", is_property=True, ensures=["result == rp_node(self, self.depth)"], props=P9)
+contract(FP, "ResolvedPos.doc", {"self": "ResolvedPos"}, returns="Node", is_property=True, ensures=["result == rp_node(self, 0)"], props=P9)
+contract(FP, "ResolvedPos.pos_at_index", {"self": "ResolvedPos", "index": "int", "depth": "opt[int]"}, returns="int",
+         requires=ODEPTH_OK + [f"0 <= index", f"index <= len(rp_node(self, {DD}).content.content)"],
+         ensures=[f"result == rp_start(self, {DD}) + pre(rp_node(self, {DD}).content.content, index)"],
+         loops={0: dict(invariant=["depth is not None", "pos == rp_start(self, depth) + pre(node.content.content, i)", "node == rp_node(self, depth)"])},
+         props=P9)
+contract(FP, "ResolvedPos.shared_depth", {"self": "ResolvedPos", "pos": "int"}, returns="int",
+         ensures=["0 <= result", "result <= self.depth",
+                  "result > 0 ==> rp_start(self, result) <= pos and pos <= rp_end(self, result)",
+                  "all_(result + 1, self.depth + 1, lambda k: not (rp_start(self, k) <= pos and pos <= rp_end(self, k)))"],
+         loops={0: dict(invariant=["0 <= depth", "depth <= self.depth",
+                                   "all_(depth + 1, self.depth + 1, lambda k: not (rp_start(self, k) <= pos and pos <= rp_end(self, k)))"],
+                        decreases="depth")}, props=P9)
+contract(FP, "ResolvedPos.same_parent", {"self": "ResolvedPos", "other": "ResolvedPos"}, returns="bool",
+         ensures=["result == (rp_start(self, self.depth) == rp_start(other, other.depth))"], props=P9)
+
+contract(FP, "ResolvedPos.resolve", {"doc": "Node", "pos": "int"}, returns="ResolvedPos",
+         raises={"ValueError": "pos < 0 or pos > doc.content.size"},
+         ensures=["result.pos == pos", "rp_node(result, 0) == doc"],
+         loops={0: dict(invariant=[
+             "0 <= parent_offset", "parent_offset <= node.content.size", "start + parent_offset == pos",
+             "len3(path) == 0 ==> node == doc and start == 0",
+             "len3(path) > 0 ==> p3b(path, len3(path) - 1) < len(p3a(path, len3(path) - 1).content.content)"
+             " and node == p3a(path, len3(path) - 1).content.content[p3b(path, len3(path) - 1)]"
+             " and start == p3c(path, len3(path) - 1) + 1 and not node.type.is_text and p3a(path, 0) == doc",
+             "all_(0, len3(path), lambda d: 0 <= p3b(path, d) and p3b(path, d) <= len(p3a(path, d).content.content))",
+             "all_(0, len3(path) - 1, lambda d: p3b(path, d) < len(p3a(path, d).content.content) and p3a(path, d + 1) == p3a(path, d).content.content[p3b(path, d)])",
+             "len3(path) > 0 ==> p3c(path, 0) == pre(p3a(path, 0).content.content, p3b(path, 0))",
+             "all_(1, len3(path), lambda d: p3c(path, d) == p3c(path, d - 1) + 1 + pre(p3a(path, d).content.content, p3b(path, d)))",
+         ], decreases="parent_offset")},
+         locals={"path": "list3[Node,int,int]"},
+         uses=["pre-nonneg"],
+         props=P9)
+
+contract(FP, "NodeRange.parent", {"self": "NodeRange"}, returns="Node", is_property=True, requires=["0 <= self.depth", "self.depth <= self.from_.depth"],
+         ensures=["result == rp_node(self.from_, self.depth)"], props=P9)
+contract(FP, "NodeRange.start_index", {"self": "NodeRange"}, returns="int", is_property=True, requires=["0 <= self.depth", "self.depth <= self.from_.depth"],
+         ensures=["result == rp_index(self.from_, self.depth)", "0 <= result"], props=P9)
+contract(FP, "NodeRange.end_index", {"self": "NodeRange"}, returns="int", is_property=True, requires=["0 <= self.depth", "self.depth <= self.to.depth"],
+         ensures=["result == rp_index_after(self.to, self.depth)", "result <= len(rp_node(self.to, self.depth).content.content)"], props=P9)
+contract(FP, "NodeRange.start", {"self": "NodeRange"}, returns="int", is_property=True, requires=["0 <= self.depth", "self.depth <= self.from_.depth"],
+         ensures=["result == (self.from_.pos if self.depth == self.from_.depth else p3c(self.from_.path, self.depth))"], props=P9)
+contract(FP, "NodeRange.end", {"self": "NodeRange"}, returns="int", is_property=True, requires=["0 <= self.depth", "self.depth <= self.to.depth"],
+         ensures=["result == (self.to.pos if self.depth == self.to.depth else p3c(self.to.path, self.depth) + nsize(p3a(self.to.path, self.depth + 1)))"], props=P9)
 
 P18 = ["C18"]
 
